@@ -594,13 +594,6 @@ def is_handler_call(ev, ex):
     return any(e.kind == 'call' and e.id > ev.id and any(F.contains(a, ev.result) for a in e.args) for e in ex.events)
 
 
-def _root(t):
-    """the object a phi-free access path starts from"""
-    while t.op in ('attr', 'item'):
-        t = t.a[0]
-    return t
-
-
 def main_ast(ctx):
     src = (ctx.REPO / 'replicat' / '__main__.py').read_text()
     tree = ast.parse(src)
@@ -626,9 +619,6 @@ def main_ast(ctx):
     ns_reused = False
     dict_calls = {}     # result term of `<cfg>.dict()` / `<bcfg>.dict()` -> (event id, which)
     notes = []
-
-    def is_obj(t, obj):
-        return obj is not None and F.resolve(t, none) is obj
 
     for ev in ex.events:
         if ev.kind == 'call':
@@ -701,8 +691,9 @@ def main_ast(ctx):
                     dict_calls[id(ev.result)] = (ev.id, 'defaultsBackend')
                 continue
             # any other method of the config objects would be an unmodelled step
-            if ev.f.op == 'attr' and ev.f.a[1] not in ('apply_known', 'apply_env', 'dict') and \
-                    any(o is not None and F.resolve(ev.f.a[0], none) is o for o in (cfg, bcfg)):
+            sm = F.split_method(ev.f)
+            if sm is not None and sm[1] not in ('apply_known', 'apply_env', 'dict') and \
+                    any(o is not None and F.resolve(sm[0], none) is o for o in (cfg, bcfg)):
                 found.append((ev.id, 'unmodelled'))
                 notes.append('unmodelled call on a config object: ' + F.show(ev.f)[:80])
         elif ev.kind == 'setattr':
